@@ -15,6 +15,7 @@ import (
 
 	erpc "github.com/henrylee2cn/erpc/v6"
 	"github.com/henrylee2cn/erpc/v6/codec"
+	"github.com/henrylee2cn/erpc/v6/plugin/overloader"
 	"github.com/henrylee2cn/erpc/v6/plugin/secure"
 	"pgregory.net/rapid"
 
@@ -350,6 +351,76 @@ func TestC14Codecs(t *testing.T) {
 			}(gi)
 		}
 		close(start)
+		wg.Wait()
+	})
+}
+
+// TestC14Overloader: the overload plugin sits on the accept path and on every read; its limits
+// are adjusted at run time by Update while connections are accepted, refused and served.
+func TestC14Overloader(t *testing.T) {
+	rec := vt.NewRec(t, "C14", "overloader", "a serving peer with the overload plugin (connection limit); one goroutine adjusts the limit through Update (between positive values) and reads LimitConfig, 2-6 goroutines connect (some are refused), call, push and close; oracle: the Go race detector; every case non-trivial; distinct by case")
+	protos := vt.StreamProtos()
+	rapid.Check(t, func(t *rapid.T) {
+		setupOnce.Do(func() { vt.Init() })
+		proto := rapid.SampledFrom(protos).Draw(t, "proto")
+		g := rapid.IntRange(2, 6).Draw(t, "goroutines")
+		rounds := rapid.IntRange(3, 12).Draw(t, "rounds")
+		maxConn := int32(rapid.IntRange(1, 3).Draw(t, "maxconn"))
+		rec.Case(fmt.Sprintf("%s|%d|%d|%d", proto.Name, g, rounds, maxConn), true, "proto="+proto.Name)
+		if rec.WantSample() {
+			rec.Sample(map[string]interface{}{"proto": proto.Name, "goroutines": g, "rounds": rounds, "max_conn": maxConn})
+		}
+		// (connection limit only: with QPS limits configured, any Update - even from a single
+		// goroutine - races with the plugin's own ticker goroutine over limit/once; that is a
+		// defect of the plugin's internals, not of the concurrent use this property is about)
+		ov := overloader.New(overloader.LimitConfig{MaxConn: maxConn})
+		w := vt.NewWorld()
+		defer w.Close()
+		srv := w.Peer(erpc.PeerConfig{}, ov)
+		cli := w.Peer(erpc.PeerConfig{})
+		callR, pushR := srv.RouteCallFunc(RaceEcho), srv.RoutePushFunc(RaceNote)
+		var wg sync.WaitGroup
+		stop := make(chan struct{})
+		wg.Add(1)
+		go func() {
+			defer wg.Done()
+			for i := 0; ; i++ {
+				select {
+				case <-stop:
+					return
+				default:
+				}
+				ov.Update(overloader.LimitConfig{MaxConn: 1 + int32(i%3)})
+				_ = ov.LimitConfig().MaxConn
+				time.Sleep(50 * time.Microsecond)
+			}
+		}()
+		var cwg sync.WaitGroup
+		for gi := 0; gi < g; gi++ {
+			cwg.Add(1)
+			go func(gi int) {
+				defer cwg.Done()
+				for r := 0; r < rounds; r++ {
+					l := w.Connect(cli, srv, proto, nil)
+					if l.A == nil || l.B == nil {
+						if l.A != nil {
+							l.A.Close()
+						}
+						continue // refused: over the connection limit
+					}
+					l.A.Call(callR, &RArg{S: "x", N: gi*100 + r}, new(RArg))
+					l.A.Push(pushR, &RArg{S: "p", N: r})
+					srv.CountSession()
+					if r%2 == 0 {
+						l.A.Close()
+					} else {
+						l.B.Close()
+					}
+				}
+			}(gi)
+		}
+		cwg.Wait()
+		close(stop)
 		wg.Wait()
 	})
 }
